@@ -1,11 +1,11 @@
 CONSTANTS
   MaxOps = 4
   MaxModels = 4
-  Dump = FALSE
+  Dump = TRUE
   BaseNames = {"A", "B", "A_BAK1"}
   BadNames = {"1x"}
   NFiles = 2
-  EditKinds = {"defs", "value"}
+  EditKinds = {"defs"}
   Linking = TRUE
 INIT Init
 NEXT Next
